@@ -10,7 +10,7 @@
 set -u
 cd "$(dirname "$0")"
 N=${1:-40}; P=${2:-6}
-export GOFLAGS=-mod=mod GOPROXY=off GOSUMDB=off GOTOOLCHAIN=local GODEBUG=randautoseed=0
+export GOFLAGS=-mod=mod GOPROXY=off GOSUMDB=off GOTOOLCHAIN=local GODEBUG=randautoseed=0,asyncpreemptoff=1
 ./check build >/dev/null || exit 2
 BIN=build/sim.test
 TMP=$(mktemp -d /tmp/verif-det.XXXX)
